@@ -2,6 +2,7 @@
    Only statements, each closed by `exact`; the proofs live in Proofs/. *)
 From Coq Require Import List NArith Bool. Import ListNotations.
 From BddVerif Require Import Model.Bdd Model.Apply Model.Ops Proofs.Sem Proofs.Canon Proofs.ApplySem Proofs.ApplyTop Proofs.TernSem Proofs.NotSem.
+From BddVerif Require Import Model.ApplyFast Proofs.ApplyFast.
 Open Scope N_scope.
 
 (* binary_op / fused_binary_flip_op driven by any consistent partial-operator table: for valid operands
@@ -14,6 +15,14 @@ Theorem C01_binary_pointwise : forall A B fa fb fo op,
     forall v, eval r v = bop_of op (eval A (oflip fa (oflip fo v))) (eval B (oflip fb (oflip fo v))).
 Proof. exact fused_binary_flip_op_correct. Qed.
 Print Assumptions C01_binary_pointwise.
+
+(* the efficient engine (PositiveMap operands and memo tables, reversed store) that the correspondence
+   driver runs on operands above 300 nodes computes exactly the reference engine's outcome, for ALL
+   inputs (no hypotheses): every statement about fused_binary_flip_op holds of it verbatim *)
+Theorem C01_fast_engine_refines : forall A B fa fb fo op,
+  fused_binary_flip_op_fast A B fa fb fo op = fused_binary_flip_op A B fa fb fo op.
+Proof. exact fused_binary_flip_op_fast_eq. Qed.
+Print Assumptions C01_fast_engine_refines.
 
 (* eager (short-circuiting) and lazy tables of the same connective give the same result *)
 Theorem C01_eager_lazy_same : forall A B fa fb fo op1 op2',
